@@ -27,6 +27,9 @@ def gen_desc(verif_seed: int, i: int, tier: str = "quick") -> dict:
         p_nested=0.5,
         p_suffix_link=0.5,
     )
+    # identifiers are handed out again after a delete in a third of the universes (another tree of the same scenario then
+    # meets the same path + identifier values without any delete of its own)
+    udesc["reuse_ids"] = (rs >> 5) % 3 == 0
     behaviour: list[dict] = []
     r = rng.random()
     if r > 0.2:
